@@ -228,15 +228,18 @@ func (t *tree) parsePrint(token item) ast.Node {
 // Aliases are applied at immediately (at parse time) to new nodes.
 // "alias" has just been read.
 func (t *tree) parseAlias(token item) {
-	var name = t.expect(itemIdent, "alias").val
-	var lastSegment = name
+	// (the segments are joined once: appending to a string per segment copies
+	// everything read so far each time.)
+	var first = t.expect(itemIdent, "alias").val
+	var segments = []string{first}
+	var lastSegment = first
 	for {
 		switch next := t.next(); next.typ {
 		case itemDotIdent:
-			name += next.val
+			segments = append(segments, next.val)
 			lastSegment = next.val[1:]
 		case itemRightDelim:
-			t.aliases[lastSegment] = name
+			t.aliases[lastSegment] = strings.Join(segments, "")
 			return
 		default:
 			t.unexpected(next, "alias. (expected '}')")
@@ -291,10 +294,11 @@ func (t *tree) parseCall(token item) ast.Node {
 		// this ident could either be {call fully.qualified.name} or attributes.
 		switch tok2 := t.next(); tok2.typ {
 		case itemDotIdent:
-			templateName = tok.val + tok2.val
+			var segments = []string{tok.val, tok2.val}
 			for tokn := t.next(); tokn.typ == itemDotIdent; tokn = t.next() {
-				templateName += tokn.val
+				segments = append(segments, tokn.val)
 			}
+			templateName = strings.Join(segments, "")
 			t.backup()
 		default:
 			t.backup2(tok)
@@ -712,12 +716,13 @@ func (t *tree) parseNamespace(token item) ast.Node {
 		t.errorf("file may have only one namespace declaration")
 	}
 	const ctx = "namespace"
-	var name = t.expect(itemIdent, ctx).val
+	var segments = []string{t.expect(itemIdent, ctx).val}
 	for {
 		switch part := t.next(); part.typ {
 		case itemDotIdent:
-			name += part.val
+			segments = append(segments, part.val)
 		default:
+			var name = strings.Join(segments, "")
 			t.backup()
 			var autoescape = t.parseAutoescape(t.parseAttrs("autoescape"))
 			t.expect(itemRightDelim, ctx)
@@ -1173,13 +1178,13 @@ func (t *tree) newValueNode(tok item) ast.Node {
 }
 
 func (t *tree) newGlobalNode(tok, next item) ast.Node {
-	var name = tok.val
+	var segments = []string{tok.val}
 	for next.typ == itemDotIdent {
-		name += next.val
+		segments = append(segments, next.val)
 		next = t.next()
 	}
 	t.backup()
-	return &ast.GlobalNode{tok.pos, name, data.Undefined{}}
+	return &ast.GlobalNode{tok.pos, strings.Join(segments, ""), data.Undefined{}}
 }
 
 func (t *tree) newFunctionNode(tok item) ast.Node {
